@@ -6,7 +6,7 @@ rig=$1; wt=$2; label=$3; patch=$4; shift 4
 cd "$wt" && git checkout -q -- . && git apply "$patch" || { echo "$label: patch does not apply"; exit 2; }
 cd "$rig"
 for p in "$@"; do
-  o=$(BW_REPO=$wt python3 check.py "$p" --tier quick 2>&1 | grep -E "VIOLATION|ok \(|note:" | head -3 | tr '\n' ' ')
+  o=$(BW_REPO=$wt python3 check.py "$p" --tier quick 2>&1 | grep -E "VIOLATION|ok \(" | head -3 | tr '\n' ' ')
   echo "$label $p: $o"
 done
 cd "$wt" && git checkout -q -- .
